@@ -475,6 +475,7 @@ class CallMixin:
                 p.bump_next()
             self.havoc_locations(c.modifies, 'call', env=penv, contract=c)
             rk = parse_kind(c.sorts.get('result', 'none'))
+            skip = None
             if constructing:
                 res = env[selfname]
                 penv['result'] = res
@@ -485,9 +486,31 @@ class CallMixin:
                 self.havoc_fresh(res)
                 penv['result'] = res
             else:
-                res = self.sym('ret_' + c.short.split('.')[-1], rk) if rk != NONE else NONEV
+                res = None
+                skip = None
+                if rk in (INT, BOOL, STR) and not c.modifies:
+                    # `result == <expr>` defines the result: use the expression itself
+                    for name, en in c.ensures.items():
+                        node = parse_clause(en)
+                        if isinstance(node, ast.Compare) and len(node.ops) == 1 \
+                                and isinstance(node.ops[0], ast.Eq) \
+                                and isinstance(node.left, ast.Name) and node.left.id == 'result' \
+                                and not any(isinstance(x, ast.Name) and x.id == 'result'
+                                            for x in ast.walk(node.comparators[0])):
+                            try:
+                                v = self.eval_expr_clause(node.comparators[0], penv, c)
+                            except Unsupported:
+                                break
+                            if v.kind == rk or (rk == INT and v.kind == BOOL):
+                                res = v if v.kind == rk else SV(INT, self.as_int(v))
+                                skip = name
+                            break
+                if res is None:
+                    res = self.sym('ret_' + c.short.split('.')[-1], rk) if rk != NONE else NONEV
                 penv['result'] = res
             for name, en in list(c.ensures.items()) + list(c.trusted_ensures.items()):
+                if name == skip:
+                    continue
                 p.assume(self.eval_clause(en, env=penv, contract=c))
         finally:
             self.old = saved_old
@@ -582,6 +605,29 @@ class CallMixin:
         try:
             v = self.eval(node)
             return self.truthy(v)
+        finally:
+            self.polarity, self.binders = saved_pol, saved_b
+            self.term_mode -= 1
+            self.frames.pop()
+
+    def eval_expr_clause(self, node, env, contract):
+        """Value (not truth) of a spec expression, in term mode."""
+        from .engine import Frame
+        globs = {}
+        try:
+            import importlib
+            globs.update(vars(importlib.import_module(contract.modname)))
+        except Exception:
+            pass
+        if contract.module is not None:
+            globs.update(vars(contract.module))
+        fr = Frame(None, globs, dict(env), qualname=self.frame.qualname)
+        self.frames.append(fr)
+        self.term_mode += 1
+        saved_pol, saved_b = self.polarity, self.binders
+        self.polarity, self.binders = 0, ()
+        try:
+            return self.eval(node)
         finally:
             self.polarity, self.binders = saved_pol, saved_b
             self.term_mode -= 1
